@@ -191,14 +191,50 @@ def partition_idiom(S, rep, g, lab):
     c = sym("count:" + cnt)
     running = [v for v in state if not (state[v] == sym("entry:" + v))]
     # all running variables start at 0 before the loop (so they are equal at entry of every iteration by induction)
-    pre = ast.unparse(init).replace(" ", "")
-    zero_init = all(("%s=0" % v) in pre for v in running)
+    def starts_at_zero(v):
+        for st in init.body:
+            if st is lp:
+                break
+            tgt = st.targets[0] if isinstance(st, ast.Assign) and len(st.targets) == 1 else st.target if isinstance(st, ast.AnnAssign) else None
+            if isinstance(tgt, ast.Name) and tgt.id == v:
+                val = st.value
+                return isinstance(val, ast.Constant) and val.value == 0 and not isinstance(val.value, bool)
+        return False
+    if lp not in init.body:
+        raise Unsupported("prefix-sum loop is nested in other control flow")
+    zero_init = all(starts_at_zero(v) for v in running)
     entry = {("s", "entry:" + v): Poly.sym("entry:P") for v in running}
     start = rec["start_idx"].subs(entry)
     end = rec["end_idx"].subs(entry)
     P = sym("entry:P")
     ok = zero_init and start == P and end == P + c and all(state[v].subs(entry) == P + c for v in running) and bool(running)
-    total_ok = ("num_lag_nodes=%s.sum()" % cnt) in pre
+    # the marker count handed to the base class is the total of the same count array
+    def total_of(e):
+        """name of the array whose total the expression is, for the accepted spellings"""
+        if isinstance(e, ast.Call) and ast.unparse(e.func) == "int" and len(e.args) == 1:
+            return total_of(e.args[0])
+        if isinstance(e, ast.Call) and isinstance(e.func, ast.Attribute) and e.func.attr == "sum" and not e.args and not e.keywords:
+            return ast.unparse(e.func.value)
+        if isinstance(e, ast.Call) and ast.unparse(e.func) in ("np.sum", "sum", "numpy.sum") and len(e.args) == 1 and not e.keywords:
+            return ast.unparse(e.args[0])
+        return None
+    nl = []
+    for n_ in ast.walk(init):
+        if isinstance(n_, ast.Call):
+            nl += [k.value for k in n_.keywords if k.arg == "num_lag_nodes"]
+        if isinstance(n_, ast.Assign) and any(ast.unparse(t) in ("num_lag_nodes", "self.num_lag_nodes") for t in n_.targets):
+            nl.append(n_.value)
+    resolved = []
+    for e in nl:
+        if isinstance(e, ast.Name):
+            a = [x.value for x in ast.walk(init) if isinstance(x, ast.Assign) and any(ast.unparse(t) == e.id for t in x.targets)]
+            resolved += a if a else [e]
+        else:
+            resolved.append(e)
+    tot = {total_of(e) for e in resolved}
+    if not resolved or None in tot:
+        raise Unsupported("cannot read how num_lag_nodes is computed: %s" % [ast.unparse(e) for e in resolved])
+    total_ok = tot == {cnt}
     rep.ob("C08.a", lab + " marker partition (prefix sums of the per-element counts)", bool(ok and total_ok),
            "per iteration: start_idx[i] = %r, end_idx[i] = %r, running sums -> %s (entry value P, count c = %s[i]); num_lag_nodes = %s.sum(): %s" % (
                start, end, {v: repr(state[v].subs(entry)) for v in running}, cnt, cnt, total_ok),
